@@ -103,7 +103,8 @@ func (f *Formatter) formatString(expr *ast.String) string {
 		return fmt.Sprintf(`{%s"%s"%s}`, expr.Delimiter, value, expr.Delimiter)
 	}
 	// Otherwise, double-quoted string - use original token literal to preserve escapes
-	return fmt.Sprintf(`"%s"`, expr.Token.Literal)
+	// (a raw line feed inside the literal is not layout either)
+	return fmt.Sprintf(`"%s"`, strings.ReplaceAll(expr.Token.Literal, "\n", literalLineFeed))
 }
 
 func (f *Formatter) formatRTime(expr *ast.RTime) string {
@@ -134,6 +135,13 @@ func (f *Formatter) formatInfixExpression(expr *ast.InfixExpression) *ChunkBuffe
 		// `"a" -1` is a subtraction and `"a" (b)` looks like a function call
 		switch expr.Right.(type) {
 		case *ast.PrefixExpression, *ast.GroupedExpression:
+			operator = expr.Operator
+		// and a literal that is not a string cannot be juxtaposed: `"a" 1`, `now 10m` do not parse
+		case *ast.Integer, *ast.Float, *ast.RTime, *ast.Boolean, *ast.IP:
+			operator = expr.Operator
+		}
+		switch expr.Left.(type) {
+		case *ast.Integer, *ast.Float, *ast.RTime, *ast.Boolean, *ast.IP:
 			operator = expr.Operator
 		}
 	}
